@@ -12,8 +12,13 @@ import PkVerif.Gen.C17
     del <id> <target>          a delete claim <id> (an `other` blob) of <target>      -> ok
     get <METHOD> <0|1 assemble> <id|x> <via>          -> <errorCode> <status|*>
     guard <htype> <0|1 internal>                      -> deny|auth|camli|open
-    access <htype> <0|1 internal> <0|1 credentials> … -> 401|pass|handler
+    access <htype> <0|1 internal> <0|1|s-… credentials> … -> 401|pass|handler
+    discovery <prefix> <0|1|s-… credentials> …        -> 401|served
     fixed <path>                                      -> auth|open|none
+    srvclose                                          -> ok
+
+credentials: `1` = valid credentials of the configured auth mode, `0` = none, `s-<shape>` = none, but
+the request is dressed up (websocket upgrade, empty/garbage Authorization, forwarded-for, …).
 
 ids are decimal numbers, lists are comma separated, `-` is the empty list / absent value, `x` is a
 malformed ref. The clock is fixed at 1000.
@@ -83,6 +88,10 @@ def showOutcome (st : Store) (o : Outcome) : String :=
     | none => "*"
   code ++ " " ++ status
 
+/-- does the request carry valid credentials? every `s-…` request shape carries none -/
+def credsArg (w : String) : Option Bool :=
+  if w == "1" then some true else if w == "0" || w.startsWith "s-" then some false else none
+
 def htypeArg (w : String) : HType :=
   if w.startsWith Gen.storageTypePrefix then .storage (w.drop Gen.storageTypePrefix.length).toString
   else .handler w
@@ -112,11 +121,16 @@ def step (s : St) (ws : List String) : St × String :=
      | some i => (s, showGuard (installedGuard Gen.authHandlerTypes (htypeArg ht) i))
      | none => (s, "bad-op"))
   | "access" :: ht :: internal :: creds :: _ =>
-    (match boolArg internal, boolArg creds with
+    (match boolArg internal, credsArg creds with
      | some i, some c =>
        (s, match guardPasses (installedGuard Gen.authHandlerTypes (htypeArg ht) i) c with
            | some true => "pass" | some false => "401" | none => "handler")
      | _, _ => (s, "bad-op"))
+  | "discovery" :: _ :: creds :: _ =>
+    (match credsArg creds with
+     | some c => (s, if rootDiscovery c then "served" else "401")
+     | none => (s, "bad-op"))
+  | ["srvclose"] => (s, "ok")
   | "fixed" :: path :: _ =>
     (s, match Gen.fixedEndpoints.find? (fun p => p.1 == path) with
         | some (_, true) => "auth" | some (_, false) => "open" | none => "none")
